@@ -25,7 +25,8 @@ def main():
                      ('explore_chords', dp.sess_c03, 40, 400, {'profile': 'explore_chords'}),
                      ('dots', dp.sess_c03, 40, 400, {'dots': True}),
                      ('multi_character_signifiers', dp.sess_c03, 60, 800, {'profile': 'multi_sigs'}),
-                     ('root_spines', dp.sess_c03, 20, 300, {'profile': 'with_root'})],
+                     ('root_spines', dp.sess_c03, 20, 300, {'profile': 'with_root'}),
+                     ('added_spines_and_sections', dp.sess_c03, 40, 400, {'ext': True})],
         nontrivial=lambda s: bool(set(s['tags']) & {'split', 'chord', 'non-kern'}),
         explored=['hidden_barline', 'chord_note_without_duration'])
 
